@@ -552,7 +552,8 @@ Qed.
 
 Theorem lstep_upd_refines (w : world) p o i r :
   pool w = map abs p -> winv p ->
-  match o with OSetCell _ _ _ _ | ORename _ _ _ _ | OSetColFromCol _ _ _ _ | OSetColFromSlice _ _ _ _ | OSetCol _ _ _ => False | _ => True end ->
+  match o with OSetCell _ _ _ _ | ORename _ _ _ _ | OSetColFromCol _ _ _ _ | OSetColFromSlice _ _ _ _ | OSetCol _ _ _
+             | ODelCol _ _ | OSetSorted _ _ | OSetColKind _ _ _ => False | _ => True end ->
   lstep p o = LUpd i r -> snd (step w o) = OkUnit -> fst (step w o) = put w i (abs r).
 Proof.
   intros Hp Hw Hno Hl Hs. destruct o; cbn [lstep] in Hl; try discriminate; try contradiction.
